@@ -141,6 +141,7 @@ def run_expose(case, seed, R):
 
 
 LAYOUTS = ('C', 'F', 'T-view', 'strided', 'reversed')
+DEGENERATE = ((1, 1), (1, 2), (2, 1), (1, 5), (5, 1))     # image shapes with unit-length axes
 
 
 def in_layout(a, layout):
@@ -642,8 +643,12 @@ def plan(tier, seed):
                     for dn in (None, 'ones', 'ramp') for pn in (None, 'ones', 'ramp')
                     for b in range(1, 33) for g in (1.0, 0.5, 2.0, 3.7) for bi in (0, 10, -5) for fw in (1e3, 1e12)
                     for fr in (1, 3) for sh in ((2, 4), (3, 3))]
+    # line sensors and single pixels: unit-length IMAGE axes must survive (only the frame axis is squeezed for frames=1)
+    expose_cases += [{'bits': b, 'gain': g, 'bias': bi, 'fwc': fw, 'frames': fr, 'dcnu': dn, 'prnu': pn, 'shape': list(sh)}
+                     for dn in (None, 'ramp') for pn in (None, 'ramp') for b in (1, 8, 12, 16, 32) for g in (1.0, 3.7) for bi in (0, 10, -5)
+                     for fw in (1e3, 1e12) for fr in (1, 3) for sh in DEGENERATE]
     layout_cases = [{'bits': b, 'gain': g, 'frames': fr, 'maps': mp, 'maps_too': mt, 'shape': list(sh), 'layout': lay}
-                    for lay in LAYOUTS for sh in ((2, 4), (3, 3), (4, 6), (5, 2)) for b in (8, 12, 16, 32) for g in (1.0, 3.7) for fr in (1, 3)
+                    for lay in LAYOUTS for sh in ((2, 4), (3, 3), (4, 6), (5, 2)) + DEGENERATE for b in (8, 12, 16, 32) for g in (1.0, 3.7) for fr in (1, 3)
                     for mp, mt in ((None, False), ('ramp', False), ('ramp', True))]
     B1, B2, B3 = (6, 6, 6) if tier == 'quick' else (12, 8, 6)
     shapes = [(a,) for a in range(1, B1 + 1)] + list(itertools.product(range(1, B2 + 1), repeat=2)) + list(itertools.product(range(1, B3 + 1), repeat=3))
@@ -669,11 +674,11 @@ def plan(tier, seed):
     return [
         ScopeUnit('expose', expose_cases, run_expose,
                   'bits EVERY value 1..32 x gain {0.5,1,2,3.7} x bias {0,10,-5} x fwc {1e3,1e12} x frames {1,3} x dcnu,prnu {None, ones, ramp 0.5..1.5} (2-D maps of the image shape) '
-                  'x image shape {(2,4),(3,3)}; per configuration one uniform exposure for every signal in {0,0.4,1,c-1,c,c+1,10c (c = (2^bits-1)*gain and fwc, also shifted by the bias), 2^bits*gain, 1e13} '
+                  'x image shape {(2,4),(3,3)}, plus the unit-axis shapes {(1,1),(1,2),(2,1),(1,5),(5,1)} on bits {1,8,12,16,32} x gain {1,3.7} x maps {None, ramp}; per configuration one uniform exposure for every signal in {0,0.4,1,c-1,c,c+1,10c (c = (2^bits-1)*gain and fwc, also shifted by the bias), 2^bits*gain, 1e13} '
                   'plus one image mixing them; noise-free via the mathops backend shim; oracle: shape, dtype, range, reference model (band of one DN only where x/gain is within 8 eps of an integer), '
                   'monotone over ALL ordered signal pairs per pixel and frame'),
         ScopeUnit('expose_layout', layout_cases, run_expose_layout,
-                  'aerial-image memory layout {C, Fortran, transposed view, strided slice of a larger frame, negative strides} x non-square and square shapes {(2,4),(3,3),(4,6),(5,2)} x bits {8,12,16,32} '
+                  'aerial-image memory layout {C, Fortran, transposed view, strided slice of a larger frame, negative strides} x shapes {(2,4),(3,3),(4,6),(5,2)} and unit-axis shapes {(1,1),(1,2),(2,1),(1,5),(5,1)} x bits {8,12,16,32} '
                   'x gain {1,3.7} x frames {1,3} x non-uniformity maps {None, ramp in C order, ramp in the same layout}: images whose pixels all differ (ramp into saturation, mixed ceiling alphabet) '
                   'must come back pixel for pixel as the reference model says, whatever the layout'),
         ScopeUnit('bin_tile', bin_cases, run_bin,
